@@ -10,8 +10,8 @@ PID = "C06"
 
 # value types / probe families present in the Coq model; engineers adding a family extend
 # gen_ttl.TYPES / gen_ttl.PROBES and these lists
-MODEL_TYPES = ["string", "list"]
-MODEL_FAMILIES = ["string", "key", "list"]
+MODEL_TYPES = ["string", "list", "hash", "zset"]
+MODEL_FAMILIES = ["string", "key", "list", "hash", "zset"]
 
 
 def make_cases(tier, seed):
@@ -35,18 +35,17 @@ def post(ctx, d):
 
 def run(ctx):
     nways = {t: len(gen_ttl.attach_ways(t)) for t in MODEL_TYPES}
-    with ttllib.use_memx("view"):
-        return memlib.run_family(
-            ctx, PID, make_cases,
-            rule="(a) matrix: value type x way of attaching/keeping/removing a deadline (EXPIRE x {none,NX,XX,GT,LT} x "
-                 "{no, earlier, later existing deadline}, EXPIRE 0/negative/twice, PERSIST, SETEX, SET EX/PX(1,999,1000,1001,1500,2000)/"
-                 "EXAT/KEEPTTL/plain/NX/XX GET, MSET, APPEND/INCR/RPUSH/LPOP/LMOVE-self, RENAME onto/away/self, DEL+recreate) x each "
-                 "candidate deadline d x probe instant {d-1s, d-1ms, d, d+1ms, d+1s} x probing command (all "
-                 "string/key/list reads and writes incl. MGET, DEL, EXISTS, RENAME, LMOVE, BLPOP, KEYS; quick: two seeded clock phases, thorough: six), "
-                 "dump after attach, after the probe and after TTL/TYPE/EXISTS; (b) timer scenarios (re-created/extended/persisted/"
-                 "renamed keys vs the old timer, 3 s after the deadline); (c) seeded random TTL-heavy programs with sleeps around "
-                 "second boundaries; thorough: (d) real-clock TCP sample, TTL 1-2 s, either second accepted for a step that straddles a boundary",
-            extra_tb=["virtual clock: Go runtime faketime (timers and sleeps exact); real goroutine latency of the expiry timer is only "
-                      "exercised by the real-clock TCP sample (thorough)"],
-            extra_cov=dict(value_types=MODEL_TYPES, attach_ways=nways, probes=len([p for p in gen_ttl.PROBES.values() if p[0] in MODEL_FAMILIES])),
-            post=post)
+    return memlib.run_family(
+        ctx, PID, make_cases, runner=ttllib.memx_runner("view"),
+        rule="(a) matrix: value type x way of attaching/keeping/removing a deadline (EXPIRE x {none,NX,XX,GT,LT} x "
+             "{no, earlier, later existing deadline}, EXPIRE 0/negative/twice, PERSIST, SETEX, SET EX/PX(1,999,1000,1001,1500,2000)/"
+             "EXAT/KEEPTTL/plain/NX/XX GET, MSET, APPEND/INCR/RPUSH/LPOP/LMOVE-self/HSET/HINCRBY+HDEL/ZADD+ZREM, RENAME onto/away/self, DEL+recreate) x each "
+             "candidate deadline d x probe instant {d-1s, d-1ms, d, d+1ms, d+1s} x probing command (all "
+             "string/key/list/hash/zset reads and writes incl. MGET, DEL, EXISTS, RENAME, LMOVE, BLPOP, KEYS, HRANDFIELD, ZADD options; quick: one seeded clock phase, thorough: six), "
+             "dump after attach, after the probe and after TTL/TYPE/EXISTS; (b) timer scenarios (re-created/extended/persisted/"
+             "renamed keys vs the old timer, 3 s after the deadline); (c) seeded random TTL-heavy programs with sleeps around "
+             "second boundaries; thorough: (d) real-clock TCP sample, TTL 1-2 s, either second accepted for a step that straddles a boundary",
+        extra_tb=["virtual clock: Go runtime faketime (timers and sleeps exact); real goroutine latency of the expiry timer is only "
+                  "exercised by the real-clock TCP sample (thorough)"],
+        extra_cov=dict(value_types=MODEL_TYPES, attach_ways=nways, probes=len([p for p in gen_ttl.PROBES.values() if p[0] in MODEL_FAMILIES])),
+        post=post)
